@@ -66,13 +66,18 @@ def lemma_obligations(ctx: Ctx, lem: api.Lemma):
 
         vs2 = dict(vs)
         vs2[lem.induct] = VInt(k.t + lem.step)
+        gen = []
+        for g in lem.generalize:
+            vs2[g] = fresh(lem.vars[g], g + "_any")  # the hypothesis holds for every value of these
+            gen.append(vs2[g].t)
         env2 = Env(vs2, {})
         dec = lem.decreases or lem.induct
         d0 = Pure(ctx, env).ev(_parse_spec(dec)).t
         d1 = Pure(ctx, env2).ev(_parse_spec(dec)).t
         hyp = [Pure(ctx, env2).b(_parse_spec(r)) for r in lem.requires]
         con = [Pure(ctx, env2).b(_parse_spec(e)) for e in lem.ensures]
-        pc.append(z3.Implies(z3.And(d1 >= 0, d1 < d0, *hyp), z3.And(*con)))
+        ih = z3.Implies(z3.And(d1 >= 0, d1 < d0, *hyp), z3.And(*con))
+        pc.append(z3.ForAll(gen, ih) if gen else ih)
     if not ctx.expand_quant:
         for u in lem.uses:
             pc.append(lemma_fact(ctx, u))
